@@ -21,7 +21,7 @@ def build(repo, tier):
             name = f'C13/py/match_single[{variant}]/pattern={cn}'
             units.append(Unit(name, verify_unit(repo, cs, f, c, arm=cn, arm_param='pattern')))
             targets[name] = FnTarget(PM, 'match_single', c, arm=cn,
-                                     call=lambda ax: f"match_single({ax['pattern']}, {ax['instance']}, dict({ax['extend']}) if {ax['extend']} is not None else None)",
+                                     call=lambda ax: f"_ms2({ax['pattern']}, {ax['instance']}, {ax['extend']})", prelude=MS_PRELUDE,
                                      enum=_ms_enum(cn, kind))
     loop = MatchLoop()
     fm = repo.func(PM, 'match')
@@ -40,6 +40,18 @@ def build(repo, tier):
                     functions=[(PFILE, 'match_single'), (PFILE, 'match')] + dfn)
 
 
+MS_PRELUDE = '''
+def _ms2(p, i, ext):
+    # also with the notation definition OBJECT shared between pattern and instance (as Notation.__call__ produces it): identity shortcuts must not change the answer
+    r1 = match_single(p, i, dict(ext) if ext is not None else None)
+    if type(p).__name__ == 'Instantiate' and type(i).__name__ == 'Instantiate' and repr(p.pattern) == repr(i.pattern):
+        r2 = match_single(p, type(i)(p.pattern, i.inst), dict(ext) if ext is not None else None)
+        if (r2 is None) != (r1 is None) or (r1 is not None and dict(r1) != dict(r2)):
+            return r2
+    return r1
+'''
+
+
 def _ms_enum(arm, kind):
     def gen(tier, rng):
         pats = [p for p in rp.small_patterns(2 if tier == 'quick' else 3, rng=rng, cap=40) if p[0] == 'P' + arm]
@@ -50,4 +62,18 @@ def _ms_enum(arm, kind):
             for i in insts:
                 for e in exts:
                     yield {'pattern': p, 'instance': i, 'extend': e}
+        if arm == 'Instantiate':
+            # both sides applications of the SAME notation, differing in an argument the definition ignores / in a used one
+            nil = ('inil',)
+            mv = lambda k: ('PMetaVar', k, nil, nil, nil, nil, nil)
+            defs = [('PImplies', mv(0), mv(0)), ('PApp', mv(1), ('PSymbol', 0)), ('PMu', 0, ('PSVar', 0))]
+            vals = [mv(0), mv(1), ('PEVar', 0), ('PSymbol', 0), ('PSymbol', 1)]
+            mk = lambda a, b: ('pcons', 0, a, ('pcons', 1, b, ('pnil',)))
+            for d in defs:
+                for a in vals[:3]:
+                    for b in vals:
+                        for a2 in vals[2:]:
+                            for b2 in vals[2:]:
+                                for e in exts[:3]:
+                                    yield {'pattern': ('PInstantiate', d, mk(a, b)), 'instance': ('PInstantiate', d, mk(a2, b2)), 'extend': e}
     return gen
